@@ -110,6 +110,12 @@ func genC18Registry(r *Rng) *Scenario {
 	dirs := []string{"", "", "blog/", "blog/posts/", "x/y/z/", "admin/"}
 	stems := []string{"home", "about", "index", "p1", "list", "a", "t", "tw", "page.v2"}
 	n := r.Range(2, 5)
+	if r.Chance(3) {
+		n = 60 // many files: more than any worker pool has workers, more than small caches hold
+		for i := 0; i < 50; i++ {
+			stems = append(stems, fmt.Sprintf("p%03d", i))
+		}
+	}
 	for i := 0; i < n; i++ {
 		rel := Pick(r, dirs) + Pick(r, stems)
 		if seen[rel+ext] {
@@ -338,6 +344,46 @@ func checkC18Registry(sc *Scenario, acc *Acc) *c18Fail {
 	if m.Kind != "err" || !strings.Contains(m.Err, sc.Cwd+"/does/not/exist.tw") {
 		return &c18Fail{sig: "evalfile-missing-not-reported", clause: "EvaluateFile of a missing file does not return an error naming the path", got: m.Short()}
 	}
+	// The same process has served ANOTHER site before: the same relative directory spelling under
+	// another working directory, every file with other content. After a chdir the tree under test is
+	// loaded; nothing is reset in between. The registry and every rendering must be what they are in
+	// a fresh process (relative names are relative to the directory given NOW).
+	single := map[string]Obs{}
+	for _, name := range ex.Names {
+		single[name] = w.RunOp(Op{Kind: "string", Name: name, Data: c18Data}, Budget)
+	}
+	oldCwd := "/old" + sc.Cwd
+	both := append([]File{}, sc.Files...)
+	for _, f := range sc.Files {
+		g := f
+		g.Path = "/old" + f.Path
+		if g.Kind == "" {
+			g.Data = strings.NewReplacer("FILE[", "OLDSITE[", "<html>", "<html data-old>", "WL ", "OLDWL ", "SHELL", "OLDSHELL", "ADV[", "OLDADV[").Replace(g.Data)
+		}
+		both = append(both, g)
+	}
+	w2 := NewWorld(oldCwd, both)
+	pinSeams()
+	if o := w2.RunOp(sc.Ops[0], Budget); o.Kind == "ok" && !o.NilT {
+		for _, name := range ex.Names {
+			w2.RunOp(Op{Kind: "string", Name: name, Data: c18Data}, Budget)
+		}
+	}
+	w2.FS.Cwd = sc.Cwd // chdir
+	lo2 := w2.RunOp(sc.Ops[0], Budget)
+	acc.Evals++
+	acc.Probe("registry-trees-loaded-after-another-site-and-a-chdir", 1)
+	if lo2.Kind != lo.Kind || lo2.NilT != lo.NilT {
+		return &c18Fail{sig: "registry:after-chdir:load-differs:" + ex.Spelling, clause: "after the process served another directory and changed its working directory, loading the same relative directory gives another result than in a fresh process",
+			detail: fmt.Sprintf("dir spelling %q, earlier cwd %q, cwd now %q", sc.Ops[0].Cfg.Dir, oldCwd, sc.Cwd), exp: lo.Short(), got: lo2.Short()}
+	}
+	for _, name := range ex.Names {
+		o := w2.RunOp(Op{Kind: "string", Name: name, Data: c18Data}, Budget)
+		if e := single[name]; o.Key() != e.Key() {
+			return &c18Fail{sig: "registry:after-chdir:render-differs:" + ex.Spelling, clause: "after the process served another directory and changed its working directory, a template renders something else than in a fresh process",
+				detail: fmt.Sprintf("name %q, dir spelling %q, earlier cwd %q, cwd now %q", name, sc.Ops[0].Cfg.Dir, oldCwd, sc.Cwd), exp: e.Short(), got: o.Short()}
+		}
+	}
 	return nil
 }
 
@@ -353,6 +399,177 @@ func parserRejects(src, path string, budget int64) (rejects bool, obs Obs) {
 		rejects = p.HasErrors()
 	}, budget)
 	return rejects, finish(Obs{Kind: "ok"}, t)
+}
+
+// unclosedBlock is an arbiter that shares no code with the repository: a small scanner over the
+// directive structure of a template source. It reports true only when the source certainly ends
+// inside a block whose opening directive is complete (@if/@each/@for, one-argument @insert, a
+// @component followed by @slot, a @slot inside such a component) and that no @end closes. It
+// reports false whenever it is not sure (source ends inside {{ }}, a comment, a directive's
+// parentheses or a string). The parser of the tree under test is the arbiter for everything else;
+// this one exists because a parser that stops demanding @end would otherwise vouch for itself.
+func unclosedBlock(src string) bool {
+	type frame struct{ kind string }
+	var stack []frame
+	i, n := 0, len(src)
+	skipParens := func(j int) (end int, commas int, ok bool) {
+		// src[j] == '('
+		depth := 0
+		for k := j; k < n; k++ {
+			switch c := src[k]; c {
+			case '"', '\'':
+				q := c
+				k++
+				for k < n && src[k] != q {
+					if src[k] == '\\' {
+						k++
+					}
+					k++
+				}
+				if k >= n {
+					return 0, 0, false
+				}
+			case '(', '[', '{':
+				depth++
+			case ')', ']', '}':
+				depth--
+				if depth == 0 {
+					return k + 1, commas, true
+				}
+			case ',':
+				if depth == 1 {
+					commas++
+				}
+			}
+		}
+		return 0, 0, false
+	}
+	for i < n {
+		if strings.HasPrefix(src[i:], "{{--") {
+			j := strings.Index(src[i:], "--}}")
+			if j < 0 {
+				return false
+			}
+			i += j + 4
+			continue
+		}
+		if strings.HasPrefix(src[i:], "{{") {
+			j := strings.Index(src[i:], "}}")
+			if j < 0 {
+				return false
+			}
+			i += j + 2
+			continue
+		}
+		if src[i] == '\\' && i+1 < n && src[i+1] == '@' {
+			i += 2
+			continue
+		}
+		if src[i] != '@' {
+			i++
+			continue
+		}
+		// directive names are matched as the lexer matches them: the longest known name that the
+		// text starts with ("@endLAY" is @end followed by text)
+		name := ""
+		for _, d := range []string{"continueIf", "component", "continue", "breakIf", "reserve", "elseif", "insert", "break", "slot", "else", "each", "dump", "end", "use", "for", "if"} {
+			if strings.HasPrefix(src[i+1:], d) {
+				name = d
+				break
+			}
+		}
+		j := i + 1 + len(name)
+		if name == "" {
+			i++
+			continue
+		}
+		if j == n {
+			// the name itself may be cut short ("@en"): unless it is a complete @end it closes nothing
+			if name == "end" && len(stack) > 0 {
+				stack = stack[:len(stack)-1]
+			}
+			break
+		}
+		i = j
+		switch name {
+		case "if", "each", "for":
+			if i >= n || src[i] != '(' {
+				continue
+			}
+			end, _, ok := skipParens(i)
+			if !ok {
+				return false
+			}
+			i = end
+			stack = append(stack, frame{name})
+		case "elseif", "use", "reserve", "dump", "breakIf", "continueIf":
+			if i < n && src[i] == '(' {
+				end, _, ok := skipParens(i)
+				if !ok {
+					return false
+				}
+				i = end
+			}
+		case "insert":
+			if i >= n || src[i] != '(' {
+				continue
+			}
+			end, commas, ok := skipParens(i)
+			if !ok {
+				return false
+			}
+			i = end
+			if commas == 0 {
+				stack = append(stack, frame{"insert"})
+			}
+		case "component":
+			if i >= n || src[i] != '(' {
+				continue
+			}
+			end, _, ok := skipParens(i)
+			if !ok {
+				return false
+			}
+			i = end
+			k := i
+			for k < n && (src[k] == ' ' || src[k] == '\n' || src[k] == '\t' || src[k] == '\r') {
+				k++
+			}
+			if k >= n {
+				return false // cut right after the directive: block form or not, unknown
+			}
+			if strings.HasPrefix(src[k:], "@slot") {
+				stack = append(stack, frame{"component"})
+			} else if src[k] == '@' && n-k < len("@slot") && strings.HasPrefix("@slot", src[k:]) {
+				return false
+			}
+		case "slot":
+			if len(stack) == 0 || stack[len(stack)-1].kind != "component" {
+				// a placeholder in a component's own file
+				if i < n && src[i] == '(' {
+					end, _, ok := skipParens(i)
+					if !ok {
+						return false
+					}
+					i = end
+				}
+				continue
+			}
+			if i < n && src[i] == '(' {
+				end, _, ok := skipParens(i)
+				if !ok {
+					return false
+				}
+				i = end
+			}
+			stack = append(stack, frame{"slot"})
+		case "end":
+			if len(stack) > 0 {
+				stack = stack[:len(stack)-1]
+			}
+		}
+	}
+	return len(stack) > 0
 }
 
 type c18FaultCase struct {
@@ -605,6 +822,15 @@ func checkC18Fault(sc *Scenario, budget int64, baseline map[string]Obs, acc *Acc
 		}
 		if rej {
 			return mustFail("syntactically wrong (its prefix is rejected by the parser)"), hit
+		}
+		if unclosedBlock(ex.Content) {
+			if acc != nil {
+				acc.Probe("unclosed-block-decided-by-the-independent-scanner", 1)
+			}
+			if f := mustFail("syntactically wrong (it ends inside a block that no @end closes)"); f != nil {
+				f.sig += ":unclosed-block"
+				return f, hit
+			}
 		}
 		return nil, hit
 	}
